@@ -73,12 +73,13 @@ def _state(c, domain):
     return {sp: c.real("s_" + sp, lo=0) for sp in SPECIES}
 
 
-def _eval_routes(interp, c, M, state, V, t, routes, nrx=1):
+def _eval_routes(interp, c, M, state, V, t, routes, nrx=1, modes=None):
     """Evaluate the reactions in the four modes through the requested routes; returns
     [(route, mode, [values per reaction] | CFault)]."""
     S = interp.load("bioscrape.simulator")
     sv = np.array([state[sp] for sp in M.get_species_list()], dtype=object)
     out = []
+    MODES_ = [m for m in MODES if modes is None or m in modes]
     if "bare" in routes:
         pv = M.params_values
         vals = {m: [] for m in MODES}
@@ -88,14 +89,14 @@ def _eval_routes(interp, c, M, state, V, t, routes, nrx=1):
             vals["stochastic"].append(p.get_stochastic_propensity(_ptr(interp, sv.copy()), _ptr(interp, pv), t))
             vals["stochastic_volume"].append(
                 p.get_stochastic_volume_propensity(_ptr(interp, sv.copy()), _ptr(interp, pv), V, t))
-        for m in MODES:
+        for m in MODES_:
             out.append(("bare", m, vals[m]))
     for route, cname in (("interface", "ModelCSimInterface"), ("safe", "SafeModelCSimInterface")):
         if route not in routes:
             continue
         itf = S.ns[cname](M)
         R = itf.get_num_reactions()
-        for mode in MODES:
+        for mode in MODES_:
             dest = np.zeros(R, dtype=object)
             st = sv.copy()
             try:
@@ -126,7 +127,7 @@ def _need(reactants):
     return need
 
 
-def massaction_job(interp, c, case, domain, routes):
+def massaction_job(interp, c, case, domain, routes, modes=None):
     """case = (species list, [reactant lists], named)"""
     T = interp.load("bioscrape.types")
     species, rxns, named = case
@@ -142,7 +143,7 @@ def massaction_job(interp, c, case, domain, routes):
     M = T.ns["Model"](species=list(species), reactions=reactions, parameters=params)
     tag = "massaction[%s]%s" % (" ; ".join("*".join(r) or "0" for r in rxns), "/named" if named else "/numeric")
     syms = {"V": V, "t": t, **{"k%d" % i: k for i, k in enumerate(ks)}, **{"s_" + s_: v for s_, v in state.items()}}
-    for route, mode, vals in _eval_routes(interp, c, M, state, V, t, routes):
+    for route, mode, vals in _eval_routes(interp, c, M, state, V, t, routes, modes=modes):
         base = dict(kind="massaction", species=list(species), rxns=[list(r) for r in rxns], named=named, mode=mode,
                     route=route, domain=domain)
         if isinstance(vals, CFault):
@@ -175,7 +176,7 @@ def _prove(c, cond, label, sig, rp):
         f["info"]["what"] = "%s differs from its closed form at %s" % (label, env)
 
 
-def hill_job(interp, c, case, domain, routes):
+def hill_job(interp, c, case, domain, routes, modes=None):
     structures = [case]
     T = interp.load("bioscrape.types")
     k = c.real("k", lo=0, lo_strict=True)
@@ -192,7 +193,7 @@ def hill_job(interp, c, case, domain, routes):
         reactants = [consumed] if consumed else []
         M = T.ns["Model"](species=list(SPECIES), reactions=[(reactants, ["C"], ptype, pd)], parameters=params)
         tag = "%s[s1=%s,d=%s,consumes=%s,n=%s]%s" % (ptype, s1, d, consumed, nval, "/named" if named else "/numeric")
-        for route, mode, vals in _eval_routes(interp, c, M, state, V, t, routes):
+        for route, mode, vals in _eval_routes(interp, c, M, state, V, t, routes, modes=modes):
             if isinstance(vals, CFault):
                 c.fail("%s %s %s: memory-unsafe access (%s)" % (tag, mode, route, vals),
                        info={"sig": "unsafe-access hill %s" % route, "what": "%s: %s" % (tag, vals)})
